@@ -94,7 +94,7 @@ def draw_params(ch, shape):
             return {"a": ch.pick(cp, "a"), "b": ch.pick(cp, "b"), "c": 0.0}
         return {"a": ch.pick([None] + sp, "a"), "b": ch.pick([None] + sp, "b"), "c": ch.pick(fp, "c")}
     if shape == "P3":
-        return {"n": {"a": ch.pick(ip, "na"), "b": ch.pick(sp, "nb")}, "e": ch.pick(["RED", "GREEN"], "e"), "s": ch.pick([1, 1000, "1*m", "2.5*K", 0.001, "1000*µ", "1*K", "2500*UNIT", "0.0025*M"], "s")}
+        return {"n": {"a": ch.pick(ip, "na"), "b": ch.pick(sp, "nb")}, "e": ch.pick(["RED", "GREEN"], "e"), "s": ch.pick([1, 1000, "1*m", "2.5*K", 0.001, "1000*µ", "1*K", "2500*UNIT", "0.0025*M", 0, 0.0, "0*m", "0*µ", "0.00*K", "2.50*K", "1.0*m"], "s")}
     return {"m": ch.pick(["ma", "mb", "r1", "r2", "x1", "x2", "x1"], "m"), "k": ch.pick(ip, "k")}
 
 
